@@ -166,6 +166,18 @@ CLAIMS["C12"] = (
     "the statement's 'limit plus one chunk' allowance.",
 )
 
+CLAIMS["C16"] = (
+    "4/C16",
+    "constructor-site census + guarded-site (edge sets) + assumption-conditioned reachability + wire-integer taint with guard + per-iteration re-evaluation",
+    "Decides: PathBufWrap is built only by parse_path and is what FilesService joins onto its directories; every "
+    "buf.push(segment) is reached only across the rejecting tests for '.', '..', empty and dot-files, '..' pops, and on "
+    "a percent-decoded path success requires the slash count to equal the raw path's count, then all components Normal; "
+    "arithmetic on wire-derived range values that can underflow is guarded by a non-zero test (found and fixed: suffix "
+    "range on an empty file); the file reader clamps each read to the remaining range, per read, advances offset and "
+    "counter by the yielded chunk and ends at size == counter. Symlinks, races and the conditional-request table are "
+    "not decided.",
+)
+
 NOT_YET = "check not built yet in this round (planned per DESIGN.md section 4); not claimed until it exists"
 
 NOT_APPLICABLE = {}
